@@ -80,7 +80,7 @@ class SeasonalZone(datetime.tzinfo):
 
 
 def py_values(thorough):
-    tzs = [None, datetime.timezone.utc] + [datetime.timezone(datetime.timedelta(minutes=m)) for m in (60, -60, 330, -330, 720, -720)]
+    tzs = [None, datetime.timezone.utc] + [datetime.timezone(datetime.timedelta(minutes=m)) for m in (60, -60, 330, -330, 720, -720, 780, -780, 825, 1, -1)]
     dates = [datetime.date(y, m, d) for y in (1, 999, 1000, 2000, 2001, 9999) for (m, d) in ((1, 1), (2, 28), (12, 31))] + [datetime.date(2000, 2, 29)]
     times = []
     for h in (0, 12, 23):
